@@ -20,6 +20,8 @@ def run(ctx):
     variants = []
     for cores in ([1, 2, 5, 16] if ctx.quick else [1, 2, 3, 5, 8, 16]):
         variants.append({"impl": "basic", "cores": cores})
+    # every goroutine of a compact build allocates its own large encode buffers: keep the counts moderate
+    for cores in ([1, 2, 5] if ctx.quick else [1, 2, 3, 5, 8]):
         variants.append({"impl": "compact", "cores": cores, "max": (10, 60)})
     sections = ["lookup", "search", "each", "problems", "build", "observe", "validity"]
     return sworld.run_static(
